@@ -5,6 +5,7 @@ import (
 	"fmt"
 	"io"
 
+	proto "github.com/golang/protobuf/proto"
 	"github.com/openacid/low/pbcmpl"
 
 	"verif/internal/gen"
@@ -28,11 +29,12 @@ func init() {
 		Flavours: releaseOnly,
 		Required: []string{"kind/legacy", "kind/legacy+version", "kind/BytesValue", "kind/StringValue", "kind/BytesValue+version",
 			"body/0", "body/1", "body/70000", "ver/len=0", "ver/len=16", "ver/interior-NUL", "chunk/whole", "chunk/one-byte", "chunk/random", "chunk/data+EOF", "chunk/zero-reads",
-			"stream/frames=1", "stream/frames>=4", "stream/eof-after-last"},
+			"stream/frames=1", "stream/frames>=4", "stream/eof-after-last", "target/reused", "target/reused-for-empty-body"},
 		Families: func(c *mon.Config) []mon.Family {
 			return []mon.Family{
-				{Name: "frames", N: pbNKinds * (len(c06BodyLens) + 1) * 17 * c.Pick(1, 20), Run: c06Frames},
-				{Name: "streams", N: c.Pick(5000, 300000), Run: c06Streams},
+				{Name: "frames", N: pbNKinds * (len(c06BodyLens) + 1) * 17 * c.Pick(2, 100), Run: c06Frames},
+				{Name: "streams", N: c.Pick(20000, 3000000), Run: c06Streams},
+				{Name: "reused-target", N: pbNKinds * chNModes * c.Pick(10, 2000), Run: c06Reuse},
 			}
 		},
 	})
@@ -94,15 +96,29 @@ func c06CheckMarshal(w *mon.W, c pbCase) ([]byte, bool) {
 }
 
 // c06CheckStream unmarshals every frame of a stream through one chunking reader.
-func c06CheckStream(w *mon.W, cases []pbCase, frames [][]byte, mode int) bool {
+func c06CheckStream(w *mon.W, cases []pbCase, frames [][]byte, mode int, reuse bool) bool {
 	var stream []byte
 	for _, f := range frames {
 		stream = append(stream, f...)
 	}
 	cr := newChunkReader(stream, mode, w.Rng)
 	consumed := 0
+	// targets are reused between frames of the same kind (odd chunking modes; always when reuse is
+	// forced): "yields an equal message" must also hold when the target still holds an earlier frame
+	targets := map[int]proto.Message{}
 	for i, c := range cases {
 		into := c.empty()
+		if reuse || mode&1 == 1 {
+			if t, ok := targets[c.Kind]; ok {
+				into = t
+				w.Bucket("target/reused")
+				if i > 0 && len(frames[i]) == 32 {
+					w.Bucket("target/reused-for-empty-body")
+				}
+			} else {
+				targets[c.Kind] = into
+			}
+		}
 		w.Op, w.A, w.B = "Unmarshal", int64(i), int64(mode)
 		n, ver, err := pbcmpl.Unmarshal(cr, into)
 		w.Eval(1)
@@ -174,7 +190,7 @@ func c06Frames(w *mon.W, idx int) {
 			continue
 		}
 		w.Bucket("chunk/" + chNames[mode])
-		if !c06CheckStream(w, []pbCase{c}, [][]byte{frame}, mode) {
+		if !c06CheckStream(w, []pbCase{c}, [][]byte{frame}, mode, false) {
 			return
 		}
 	}
@@ -209,7 +225,7 @@ func c06Streams(w *mon.W, idx int) {
 	if nf >= 4 {
 		w.Bucket("stream/frames>=4")
 	}
-	if !c06CheckStream(w, cases, frames, mode) {
+	if !c06CheckStream(w, cases, frames, mode, idx%3 == 0) {
 		return
 	}
 	if nf >= 2 {
@@ -226,5 +242,35 @@ func c06Streams(w *mon.W, idx int) {
 			ls = append(ls, len(f))
 		}
 		return mon.D{"frames": nf, "frame_lengths": ls, "chunking": chNames[mode]}
+	})
+}
+
+// c06Reuse decodes an alternation of non-empty and empty-body frames of ONE kind into ONE target.
+func c06Reuse(w *mon.W, idx int) {
+	r := w.Rng
+	kind := idx % pbNKinds
+	mode := (idx / pbNKinds) % chNModes
+	var cases []pbCase
+	var frames [][]byte
+	for _, n := range []int{1 + r.Intn(40), 0, 1 + r.Intn(400), 0, 0, 1, r.Intn(3)} {
+		c := pbCase{Kind: kind, Payload: pbPayload(r, n), Ver: pbVersion(r, r.Intn(17))}
+		f, ok := c06CheckMarshal(w, c)
+		if !ok {
+			return
+		}
+		cases = append(cases, c)
+		frames = append(frames, f)
+	}
+	w.Bucket("chunk/" + chNames[mode])
+	if !c06CheckStream(w, cases, frames, mode, true) {
+		return
+	}
+	h := uint64(mode) + 1000
+	for _, f := range frames {
+		h = gen.Hash64(h, gen.HashBytes(f))
+	}
+	w.Distinct(h)
+	w.Sample(func() interface{} {
+		return mon.D{"what": "alternating non-empty / empty-body frames decoded into ONE reused target", "kind": pbKindNames[kind], "chunking": chNames[mode], "frames": len(frames)}
 	})
 }
